@@ -89,6 +89,14 @@ CONFIG = {
   "level_text": "Machine-checked theorems (Lean 4) over a model of machines/range for all integer kinds, bounds and steps: a..b, a..=b, a..s..b, a..s..=b with positive step evaluate to exactly the terms of the progression before/up to b (membership characterised by an iff) whenever the span is representable and the value one step past the last element is representable; zero steps and wrong-order bounds are errors; results are always initial segments of the progression; float kinds get the structural theorem over parametric float operations. Counterexample theorems pin the three places where the pinned commit falls short (C15-D1, D3; D2 is float-only and replayed). Tied to the code by differential runs over all kinds.",
   "level_note": "Trusted: Lean kernel + propext/Classical.choice/Quot.sound; harness rendering of operands (annotated definitions); IEEE float ops. Partial: float ranges are proved only structurally (repeated addition), exactness is checked on dyadic operands by the exact-arithmetic oracle in the driver.",
  },
+ "C19": {
+  "engine": "core",
+  "rule": "programs of 1-6 statements over names a-e (definitions from literals, variables and binary + - * expressions; every second program also has assignments and += on mutable names) x step counts 1-4 (thorough: 1-6); each program runs in two interpreter instances: K single steps with a snapshot after each, and one request for K steps; distinct = distinct case lines",
+  "trusted": ["hash-map iteration order differs between interpreter instances within one process (std RandomState), which is what determinism is checked against; separate OS processes are not spawned"],
+  "assumptions": ["non-negative literals (a negative literal is a negate plan step of its own)", "values stay below 2^53 so f64 arithmetic is exact"],
+  "level_text": "Machine-checked theorems (Lean 4) over a model of the evaluation plan (cells, plan functions, step as repeated passes, and how evaluating a program appends functions and cells): step(m+n) = step(n) after step(m) for every plan, so n single steps equal one request for n steps; a plan every function of which recomputes what its output cell holds is fixed by any number of passes; the plan built by first evaluation of an assignment-free program is single-assignment (every function writes a fresh cell and reads earlier ones) and therefore settled; corollary: for programs without assignment or op-assignment re-evaluation leaves every cell exactly as the first evaluation left it, for any number of steps. The model reproduces the value sequences of programs with assignments (e.g. x = x + 1 grows per step). Tied to the code by differential runs; the implementation's own observations are checked against the three clauses of the property.",
+  "level_note": "Trusted: Lean kernel + propext/Classical.choice/Quot.sound; that every built-in plan function is a function of its input cells (checked per run by the correspondence, not provable here); determinism across OS processes is not exercised.",
+ },
  "C20": {
   "rule": "every edge subset of the include graph over 3 files (512 graphs, plain and decorated rendering; thorough: all 65536 over 4 files) plus random graphs over 2-5 files in 3 directories with fences, CRLF, whitespace and non-include brace lines; distinct = distinct file-system encodings",
   "trusted": ["std::fs::canonicalize modelled as lexical normalisation with existence checks on a symlink-free tree",
